@@ -805,6 +805,7 @@ func (vf *VerifyFunc) enterBlock(st *State, fr *Frame, b *ssa.BasicBlock) bool {
 	// havoc everything the loop may modify
 	for _, phi := range phis {
 		nv := st.freshVal(phi.Type(), "loop_"+phi.Comment)
+		st.knowRef(nv) // whatever a loop-carried variable refers to existed before this iteration's allocations
 		fr.regs[phi] = nv
 		if isRangeIndexPhi(phi) {
 			// index of a range loop over a slice / array / string: starts at -1, steps by one, is compared with the length
